@@ -28,16 +28,14 @@ theorem ops_valid {ops : List ROp} (h : ∀ n ∈ ops.flatMap ROp.nets, Plain n)
   | c0 => trivial
   | c1 => trivial
 
-/-- the operand names a gate is connected to: constants or used nets -/
-theorem op_src {U : Name → Prop} {ops : List ROp} (hU : ∀ n ∈ ops.flatMap ROp.nets, U n) {a : ROp}
-    (ha : a ∈ ops ∨ a = .c0) :
+/-- the operand names a gate is connected to: constants or nets the gate reads (after parity cancellation) -/
+theorem op_src {U : Name → Prop} {ops : List ROp} (hU : ∀ n, ROp.net n ∈ ops → U n) {a : ROp}
+    (ha : a ∈ ops) :
     a.nm "tie_0" "tie_1" = "tie_0" ∨ a.nm "tie_0" "tie_1" = "tie_1" ∨ U (a.nm "tie_0" "tie_1") := by
-  rcases ha with ha | rfl
-  · cases a with
-    | net n => exact Or.inr (Or.inr (hU n (List.mem_flatMap.2 ⟨_, ha, by simp [ROp.nets]⟩)))
-    | c0 => exact Or.inl rfl
-    | c1 => exact Or.inr (Or.inl rfl)
-  · exact Or.inl rfl
+  cases a with
+  | net n => exact Or.inr (Or.inr (hU n ha))
+  | c0 => exact Or.inl rfl
+  | c1 => exact Or.inr (Or.inl rfl)
 
 section
 variable {Def : Name → String → Prop} {E : Name × Name → Prop} {B : Name × BBox → Prop} {U : Name → Prop}
@@ -46,7 +44,7 @@ variable {Def : Name → String → Prop} {E : Name × Name → Prop} {B : Name 
 
 theorem gate_step {bbs : List BBox} {ord : Ord} {st : TState} (d : Decls) (h : FI Def E B U st.c)
     (hg : st.gateExprs = []) (ty inst out : Name) (ops : List ROp) (hok : (RStmt.gate ty inst out ops).OK bbs)
-    (hnew : ∀ t, ¬ Def out t) (hU : ∀ n ∈ ops.flatMap ROp.nets, U n) :
+    (hnew : ∀ t, ¬ Def out t) (hU : ∀ n, ROp.net n ∈ parityOps ty ops → U n) :
     ∃ st', doItem bbs ord (st, d) (RStmt.gate ty inst out ops).item = .ok (st', d) ∧ st'.gateExprs = [] ∧
       st'.c.name = st.c.name ∧
       FI (fun x t => Def x t ∨ (RStmt.gate ty inst out ops).dty bbs x t)
@@ -65,7 +63,7 @@ theorem gate_step {bbs : List BBox} {ord : Ord} {st : TState} (d : Decls) (h : F
     (by
       intro u hu
       obtain ⟨a, ha, rfl⟩ := List.mem_map.1 hu
-      exact op_src hU (mem_parityOps ha))
+      exact op_src hU ha)
   refine ⟨{ st with c := c' }, ?_, hg, hname, ?_⟩
   · show (do let st ← [(inst, Conns.positional (Expr.id out :: ops.map ROp.expr))].foldlM (doInstance bbs ord ty) st; pure (st, d)) = _
     rw [VR.foldlM_single]
@@ -105,7 +103,7 @@ theorem assign_step {bbs : List BBox} {ord : Ord} {st : TState} (d : Decls) (h :
     (by
       intro u hu
       rw [List.mem_singleton] at hu; subst hu
-      exact op_src (ops := [r]) (by simpa using hU) (Or.inl (by simp)))
+      exact op_src (ops := [r]) (fun n hn => hU n (by rw [← List.mem_singleton.1 hn]; simp [ROp.nets])) (by simp))
   refine ⟨{ st with c := c' }, ?_, hg, hname, ?_⟩
   · show (do let st ← [(l, r.expr)].foldlM doAssign st; pure (st, d)) = _
     rw [VR.foldlM_single]
